@@ -880,6 +880,69 @@ def lattice_settings(rng, thorough):
     return out
 
 
+def _family_src(i, name):
+    """Function family i: ONE statement pattern repeated (homogeneous body), so that different families are structurally unlike
+    each other and the two copies of a family (one per module) form their own clone group."""
+    kinds = ["for a in xs:\n        for b in a:\n            t.append((a, b))", "while t:\n        t = t[1:]", "if t:\n        t = [t]\n    else:\n        t = None",
+             "try:\n        t = int(t)\n    except ValueError:\n        t = 0\n    finally:\n        pass", "with open(str(t)) as f:\n        t = f.read()",
+             "t = [a * 2 for a in xs if a if t]", "t = {a: str(a) for a in xs}", "assert t is not None, 'x'", "t = (t, xs, t)", "del xs[0]",
+             "t = t and xs or None", "t = lambda q: q", "t += 1", "t = str(t).strip().lower().upper()", "t = '%s-%s' % (t, xs)", "t = xs[0][1][2]",
+             "t = not (t and xs) or (xs and not t)", "print(t, xs, sep='')", "t = yield_(t)", "raise_(t) if t else None", "t = -(-t)", "t = xs if t else t"]
+    k = kinds[i % len(kinds)]
+    body = ["    t = xs"] + ["    " + k] * 12 + ["    return t"]
+    return "def %s(xs):\n%s\n" % (name, "\n".join(body))
+
+
+def part_many_items(ck, stats):
+    """Every format is written for a result in which every list is longer than any "top N" cut-off of the templates
+    (more than 10 clone groups, more than 20 functions, classes, dead-code findings): the branches of the HTML/text templates that
+    say "showing top N of M" only run then."""
+    d = lib.fresh_dir("c16_many")
+    nfam = 22
+    with open(os.path.join(d, ".pyscn.toml"), "w") as f:
+        # only near-identical fragments pair up and group, so every family is a clone group of its own
+        f.write("[cbo]\nshow_zeros = true\n\n[clones]\nsimilarity_threshold = 0.97\ngrouping_threshold = 0.97\nmin_nodes = 5\nmin_lines = 5\n")
+    for mod in ("alpha", "beta"):
+        src = ["import os", ""]
+        for i in range(nfam):
+            src.append(_family_src(i, "fam%d" % i))          # same name in both modules: the two copies are identical trees
+        for i in range(12):
+            src.append("class %s_K%d:\n    def __init__(self):\n        self.a = os.sep\n        self.b = %d\n\n    def one(self):\n        return self.a\n\n"
+                       "    def two(self):\n        return self.b\n        print(%d)\n" % (mod[0].upper(), i, i, i))
+        with open(os.path.join(d, mod + ".py"), "w") as f:
+            f.write("\n\n".join(src) + "\n")
+    rc, data, err = lib.analyze_json(d, ["--min-complexity", "1"])
+    stats["cli_runs"] += 1
+    if data is None:
+        report(ck, "many-items project: no JSON report (exit %s): %s" % (rc, err[-300:]), {"kind": "many-items"})
+        return {}
+    ngroups = len((data.get("clone") or {}).get("clone_groups") or [])
+    nfun = len((data.get("complexity") or {}).get("Functions") or [])
+    ncls = len((data.get("cbo") or {}).get("Classes") or [])
+    sizes = {"clone_groups": ngroups, "functions": nfun, "classes": ncls}
+    if ngroups <= 10 or nfun <= 20 or ncls <= 20:
+        ck.broken_ties.append("many-items project is too small to pass the templates' top-N cut-offs: %s" % sizes)
+    for fm in ("html", "yaml", "csv"):
+        shutil.rmtree(os.path.join(d, ".pyscn", "reports"), ignore_errors=True)
+        rc2, out2, err2 = lib.pyscn(["analyze", "--" + fm, "--no-open", "--min-complexity", "1", "."], d)
+        stats["cli_runs"] += 1
+        path = R.latest(d, fm)
+        txt = open(path).read() if path else ""
+        bad = None
+        if rc2 != rc or not txt:
+            bad = "%s report not written (exit %s, JSON run exit %s): %s" % (fm, rc2, rc, err2[-200:])
+        elif "Failed to generate output" in err2 or "Failed to generate output" in out2:
+            bad = "%s report: the run prints 'Failed to generate output': %s" % (fm, (err2 + out2)[-300:])
+        elif fm == "html" and not txt.rstrip().endswith("</html>"):
+            bad = "HTML report is truncated (does not end with </html>; last bytes %r)" % txt[-80:]
+        elif fm == "html":
+            more = R.check_html(txt, data, loose=True)
+            bad = "; ".join(more[:3]) if more else None
+        if bad:
+            report(ck, "every format must be written for every result — many-items project (%s): %s" % (sizes, bad), {"kind": "many-items", "format": fm, "sizes": sizes})
+    return sizes
+
+
 def part_lattice(ck, rng, labels, thorough, stats):
     """Risk levels on the threshold lattice through the CLI: for every per-item section (complexity functions, CBO classes,
     LCOM classes) items exactly ON each threshold in effect, one and two above / below; CBO classes in every self-reference
@@ -962,6 +1025,7 @@ def main(tier):
             ck.broken_ties.append("end-to-end part failed: %s" % str(e)[-800:])
         try:
             dist["risk_lattice_projects"] = part_lattice(ck, rng, labels, thorough, stats)
+            dist["many_items_project"] = part_many_items(ck, stats)
         except Exception as e:
             ck.broken_ties.append("risk lattice part failed: %s" % str(e)[-800:])
     stats["sections_nonempty"] = sorted(stats["sections_nonempty"])
